@@ -15,7 +15,7 @@ ASSUMPTIONS = [
 INNER_IGNORES_PREC = {"regexp", "not_regexp", "not", "binary_not", "missing", "exists", "between", "not_between"}
 # hand-written renderers that dispatch their operands with a fixed (too loose) precedence
 OUTER_HANDWRITTEN = {"not", "binary_not", "regexp", "not_regexp", "between", "not_between", "missing", "exists",
-                     "in", "nin", "neg", "cast", "case", "concat", "fn"}
+                     "in", "nin", "neg", "cast", "case", "concat", "fn", "collate"}
 
 
 def rule_of(triple):
@@ -39,7 +39,7 @@ def raise_key(obs):
 
 
 # JSON operator name -> key of the parser's operator table (hand-written renderers)
-HAND_KEY = {"not": "not", "binary_not": "u~", "between": "between", "not_between": "not between", "in": "in",
+HAND_KEY = {"not": "not", "binary_not": "u~", "between": "between", "not_between": "not between", "in": "in", "collate": "collate",
             "nin": "not in", "missing": "is", "exists": "is not", "regexp": "regexp", "not_regexp": "not regexp"}
 ATOMIC = {"fn", "concat", "neg", "cast", "case"}  # written in function / keyword syntax: operands are enclosed
 
@@ -142,6 +142,8 @@ def run(ctx, budget=None):
         if okk and sql:
             v = next(iter(t.values()))
             kids = [v[0]["when"], v[0]["then"], v[1]] if triple[0] == "case" else (v if isinstance(v, list) else [v])
+            if triple[0] in ("cast", "collate"):
+                kids = [v[0]]
             inner_tree = kids[triple[1]] if triple[1] < len(kids) else None
             fi = R.format_raw({"select": {"value": inner_tree}}) if inner_tree is not None else ("err",)
             if fi[0] == "ok":
